@@ -378,7 +378,7 @@ func rangeLemmas(r *Run, cfg rcConfig, items []rangeItem) {
 			}
 			em2.Assert(fmt.Sprintf("(< %s %s)", xn2, bound))
 			em2.Assert("(not " + c2 + ")")
-			r.Add(&Ob{Name: name + "/complete", Family: "range-completeness", Script: em2.String(), Bound: bnd, Site: site,
+			r.Add(&Ob{Name: name + "/complete", Family: "range-completeness", Script: em2.String(), Values: []string{x.Name}, Bound: bnd, Site: site,
 				OnFail: func(res smt.Result) *Violation { return completenessViolation(r, res, x.Name, gadget, n, cfgc, name) }})
 		case "step":
 			// predecessor: the item of the same gadget with width n-step
@@ -411,7 +411,7 @@ func rangeLemmas(r *Run, cfg rcConfig, items []rangeItem) {
 				em2.Assert(fmt.Sprintf("(= %s %s)", em2.Ref(hx.Out[k+1]), em2.Ref(hp.Out[k])))
 			}
 			em2.Assert("(not " + cN + ")")
-			r.Add(&Ob{Name: name + "/complete-step", Family: "range-completeness-step", Script: em2.String(), Bound: bnd + fmt.Sprintf("; induction step from width %d (digit base 2^%d)", n-it.step, it.step), Site: site,
+			r.Add(&Ob{Name: name + "/complete-step", Family: "range-completeness-step", Script: em2.String(), Values: []string{x.Name}, Bound: bnd + fmt.Sprintf("; induction step from width %d (digit base 2^%d)", n-it.step, it.step), Site: site,
 				OnFail: func(res smt.Result) *Violation { return completenessViolation(r, res, x.Name, gadget, n, cfgc, name) }})
 		}
 
